@@ -103,6 +103,67 @@ def rule_schur_lm(ck, units):
                           f.decl(d)['n'], f.where(bad[0]), show(bad[0])[:60], f.where(cp)))
 
 
+def rule_schur_adjust(ck, units):
+    """adjust_p == 1: the pressure solver is set up for Kpp - dia(L) and the matrix-free operator adds dia(L) back (spmv: P.system_matrix() x +
+    Ld x).  The operator is the Schur complement only if what is added back is what was subtracted: an entry of the vector that becomes
+    Ld may hold a value only where that value was subtracted from the block - the store and the `-=` sit under the same conditions."""
+    from ir import access_path
+    ck.rule('schur-adjust-consistent', 'adjust_p == 1: every value stored into the vector that becomes Ld (added back by the Schur operator) is subtracted from the pressure block under '
+                                       'the same conditions (a row without a stored diagonal entry gets no correction added back)', 1)
+    done = set()
+    for u in units.values():
+        for f in u.funcs:
+            if not f.cls or 'schur_pressure_correction' not in f.cls or f.cfg is None or f.cls in done:
+                continue
+            src = None
+            for n in f.nodes.values():
+                if n['k'] in ('bin', 'opcall') and n.get('op') == '=':
+                    x, y = unwrap(n.get('x')), unwrap(n.get('y'))
+                    if x is not None and x['k'] == 'mem' and x.get('n') == 'Ld' and y is not None and y['k'] == 'call' and (y.get('f') or '').endswith('copy_vector'):
+                        a0 = unwrap(y['a'][0])
+                        if a0 is not None and a0['k'] == 'ref':
+                            src = a0['d']
+            if src is None:
+                continue
+            done.add(f.cls)
+
+            def conds(n):
+                """the conditions (with polarity) and loops the statement n sits under"""
+                out, cur = [], n
+                for a in f.ancestors(n):
+                    if a['k'] == 'if':
+                        out.append((a['i'], a.get('t') is not None and any(x is cur for x in walk(a['t']))))
+                    elif a['k'] in ('for', 'while', 'do', 'rfor'):
+                        out.append((a['i'], None))
+                    cur = a
+                return frozenset(out)
+
+            def is_zero(e):
+                e = unwrap(e)
+                return e is not None and ((e['k'] == 'lit' and str(e.get('v')) in ('0', '0.0')) or (e['k'] == 'call' and (e.get('f') or '').split('<')[0].endswith('math::zero')))
+            stores, subs = [], []
+            for n in f.nodes.values():
+                if n['k'] not in ('bin', 'opcall') or n.get('x') is None or n.get('y') is None:
+                    continue
+                if n.get('op') == '=' and any(x['k'] == 'ref' and x['d'] == src for x in walk(n['x'])) and unwrap(n['x'])['k'] != 'ref' and not is_zero(n['y']):
+                    stores.append(n)
+                if n.get('op') == '-=':
+                    ap = access_path(n['x'])
+                    if ap is not None and 'val' in ap[2]:
+                        subs.append(n)
+            bad = []
+            for st in stores:
+                val = show(st['y']).replace(' ', '')
+                mates = [sb for sb in subs if show(sb['y']).replace(' ', '') == val]
+                if not any(conds(sb) <= conds(st) for sb in mates):
+                    bad.append(st)
+            if stores:
+                ck.ob('schur-adjust-consistent', f.cls.split('<')[0], f.where(bad[0]) if bad else f.where(stores[0]), not bad, '' if not bad else
+                      '`%s` is stored at %s for every pressure row, but it is subtracted from the pressure block only under a condition (%s): for a row where the condition never holds '
+                      '(no stored diagonal entry) the Schur operator adds back a correction that was never subtracted and is not the Schur complement any more' % (
+                          show(bad[0])[:40], f.where(bad[0]), '; '.join('`%s` at %s' % (show(sb)[:40], f.where(sb)) for sb in subs[:2]) or 'no subtraction found'))
+
+
 def rule_schur(ck, units):
     ck.rule('schur-operator', 'matrix-free Schur complement spmv(alpha, x, beta, y): first write of y uses beta on its old content, later writes accumulate, every added term is scaled by +/- alpha', 1)
     done = set()
@@ -244,6 +305,7 @@ def main(tier):
     rule_cpr(ck, units)
     rule_schur(ck, units)
     rule_schur_lm(ck, units)
+    rule_schur_adjust(ck, units)
     rule_deflation(ck, units)
     # the diagonal blocks that define the CPR pressure weighting are gathered into per-thread scratch that must be rebuilt for every cell (shared with C10)
     import c10
